@@ -34,6 +34,7 @@ structure Inv (c : Cfg) (s : State) : Prop where
   wf_nt : c.nw ≤ c.nt
   wf_b : c.hasB = true → c.nw < c.nt
   wf_cur : c.curNullOk = true
+  wf_aw : c.awHandleFirst = true
   -- who can be where
   t_out : ∀ t, c.nt ≤ t → s.pc t = Pc.done
   t_worker : ∀ t, (s.pc t).isWorker = true → t < c.nw
@@ -119,6 +120,8 @@ structure Inv (c : Cfg) (s : State) : Prop where
   bb_tmp : ∀ t, s.btmp t = true → c.hasB = true
   bb_ht : s.bHasThread = true → c.hasB = true
   bb_jb : ∀ t, s.pc t = Pc.bJoinBlocked → s.btmp t = true
+  -- `co_await pool(awaitable)`: once a resolution can wake the awaiter, it finds the coroutine handle
+  a_handle : ∀ n, s.slotReg n = true → s.slotHandle n = true
   -- a worker that detached itself
   z_det : ∀ t, s.detached t = true → s.cur t = false ∧ (s.pc t).isLoop = false
   z_cur : ∀ t, t < c.nw → s.cur t = false → s.detached t = true
@@ -175,6 +178,7 @@ macro "inv_step" h:ident : tactic => `(tactic| (
   case wf_nt => exact ($h).wf_nt
   case wf_b => exact ($h).wf_b
   case wf_cur => exact ($h).wf_cur
+  case wf_aw => exact ($h).wf_aw
   case' t_out => (have hf_ := ($h).t_out; inv_simp; try (first | exact hf_ | inv_grind | (have hg0_ := ($h).t_worker; have hg1_ := ($h).t_ret; have hg2_ := ($h).t_script; have hg3_ := ($h).t_noB; have hg4_ := ($h).t_enq; have hg5_ := ($h).t_enq2; have hg6_ := ($h).n_noexit; have hg7_ := ($h).wf_nt; inv_grind) | (have hh_ := $h; cases hh_; inv_grind)))
   case' t_worker => (have hf_ := ($h).t_worker; inv_simp; try (first | exact hf_ | inv_grind | (have hg0_ := ($h).t_out; have hg1_ := ($h).t_ret; have hg2_ := ($h).t_script; have hg3_ := ($h).t_noB; have hg4_ := ($h).t_enq; have hg5_ := ($h).t_enq2; have hg6_ := ($h).n_noexit; have hg7_ := ($h).wf_nt; inv_grind) | (have hh_ := $h; cases hh_; inv_grind)))
   case' t_ret => (have hf_ := ($h).t_ret; inv_simp; try (first | exact hf_ | inv_grind | (have hg0_ := ($h).t_out; have hg1_ := ($h).t_worker; have hg2_ := ($h).t_script; have hg3_ := ($h).t_noB; have hg4_ := ($h).t_enq; have hg5_ := ($h).t_enq2; have hg6_ := ($h).n_noexit; have hg7_ := ($h).wf_nt; inv_grind) | (have hh_ := $h; cases hh_; inv_grind)))
@@ -245,6 +249,7 @@ macro "inv_step" h:ident : tactic => `(tactic| (
   case' bb_tmp => (have hf_ := ($h).bb_tmp; inv_simp; try (first | exact hf_ | inv_grind | (have hg0_ := ($h).bb_pc; have hg1_ := ($h).bb_bw; have hg2_ := ($h).bb_exit; have hg3_ := ($h).bb_stop; have hg4_ := ($h).bb_w; have hg5_ := ($h).bb_ht; have hg6_ := ($h).bb_jb; have hg7_ := ($h).wf_b; have hg8_ := ($h).wf_nt; have hg9_ := ($h).t_out; inv_grind) | (have hh_ := $h; cases hh_; inv_grind)))
   case' bb_ht => (have hf_ := ($h).bb_ht; inv_simp; try (first | exact hf_ | inv_grind | (have hg0_ := ($h).bb_pc; have hg1_ := ($h).bb_bw; have hg2_ := ($h).bb_exit; have hg3_ := ($h).bb_stop; have hg4_ := ($h).bb_w; have hg5_ := ($h).bb_tmp; have hg6_ := ($h).bb_jb; have hg7_ := ($h).wf_b; have hg8_ := ($h).wf_nt; have hg9_ := ($h).t_out; inv_grind) | (have hh_ := $h; cases hh_; inv_grind)))
   case' bb_jb => (have hf_ := ($h).bb_jb; inv_simp; try (first | exact hf_ | inv_grind | (have hg0_ := ($h).bb_pc; have hg1_ := ($h).bb_bw; have hg2_ := ($h).bb_exit; have hg3_ := ($h).bb_stop; have hg4_ := ($h).bb_w; have hg5_ := ($h).bb_tmp; have hg6_ := ($h).bb_ht; have hg7_ := ($h).wf_b; have hg8_ := ($h).wf_nt; have hg9_ := ($h).t_out; inv_grind) | (have hh_ := $h; cases hh_; inv_grind)))
+  case' a_handle => (have hf_ := ($h).a_handle; inv_simp; try (first | exact hf_ | inv_grind))
   case' z_det => (have hf_ := ($h).z_det; inv_simp; try (first | exact hf_ | inv_grind | (have hg0_ := ($h).n_noexit; have hg1_ := ($h).s_tmp_pc; have hg2_ := ($h).s_tmp_uniq; have hg3_ := ($h).s_thr_tmp; have hg4_ := ($h).s_jb_head; have hg5_ := ($h).s_tmp_w; have hg6_ := ($h).s_nostuck; have hg7_ := ($h).j_all; have hg8_ := ($h).j_thr; have hg9_ := ($h).j_thr0; have hg10_ := ($h).j_thrw; have hg11_ := ($h).z_cur; have hg12_ := ($h).z_touch; have hg13_ := ($h).d_exit; have hg14_ := ($h).t_worker; have hg15_ := ($h).t_ret; have hg16_ := ($h).t_script; have hg17_ := ($h).wf_nt; inv_grind) | (have hh_ := $h; cases hh_; inv_grind)))
   case' z_cur => (have hf_ := ($h).z_cur; inv_simp; try (first | exact hf_ | inv_grind | (have hg0_ := ($h).n_noexit; have hg1_ := ($h).s_tmp_pc; have hg2_ := ($h).s_tmp_uniq; have hg3_ := ($h).s_thr_tmp; have hg4_ := ($h).s_jb_head; have hg5_ := ($h).s_tmp_w; have hg6_ := ($h).s_nostuck; have hg7_ := ($h).j_all; have hg8_ := ($h).j_thr; have hg9_ := ($h).j_thr0; have hg10_ := ($h).j_thrw; have hg11_ := ($h).z_det; have hg12_ := ($h).z_touch; have hg13_ := ($h).d_exit; have hg14_ := ($h).t_worker; have hg15_ := ($h).t_ret; have hg16_ := ($h).t_script; have hg17_ := ($h).wf_nt; inv_grind) | (have hh_ := $h; cases hh_; inv_grind)))
   case' z_touch => (have hf_ := ($h).z_touch; inv_simp; try (first | exact hf_ | inv_grind | (have hg0_ := ($h).n_noexit; have hg1_ := ($h).s_tmp_pc; have hg2_ := ($h).s_tmp_uniq; have hg3_ := ($h).s_thr_tmp; have hg4_ := ($h).s_jb_head; have hg5_ := ($h).s_tmp_w; have hg6_ := ($h).s_nostuck; have hg7_ := ($h).j_all; have hg8_ := ($h).j_thr; have hg9_ := ($h).j_thr0; have hg10_ := ($h).j_thrw; have hg11_ := ($h).z_det; have hg12_ := ($h).z_cur; have hg13_ := ($h).d_exit; have hg14_ := ($h).t_worker; have hg15_ := ($h).t_ret; have hg16_ := ($h).t_script; have hg17_ := ($h).wf_nt; inv_grind) | (have hh_ := $h; cases hh_; inv_grind)))
